@@ -46,6 +46,13 @@ def generated_queries(tier='quick'):
         ('subselect-where', 'SELECT a FROM int1.tbl1 WHERE b IN (SELECT c FROM int2.tbl2)'),
         ('subselect-notin', 'SELECT a FROM int1.tbl1 WHERE b NOT IN (SELECT c FROM int2.tbl2 WHERE d = 1)'),
         ('subselect-target', 'SELECT a, (SELECT max(c) FROM int2.tbl2) FROM int1.tbl1'),
+        ('subselect-join-mixed-where', 'SELECT * FROM int1.tbl1 WHERE a IN (SELECT x.id FROM int1.tbl2 AS x JOIN int2.tbl3 AS y ON x.id = y.id)'),
+        ('subselect-join-mixed-target', 'SELECT a, (SELECT max(y.b) FROM int1.tbl2 AS x JOIN int2.tbl3 AS y ON x.id = y.id) FROM int1.tbl1'),
+        ('subselect-join-mixed-delete', 'DELETE FROM int1.tbl1 WHERE a IN (SELECT x.id FROM int1.tbl2 AS x JOIN int2.tbl3 AS y ON x.id = y.id)'),
+        ('subselect-join-same', 'SELECT * FROM int1.tbl1 WHERE a IN (SELECT x.id FROM int1.tbl2 AS x JOIN int1.tbl3 AS y ON x.id = y.id)'),
+        ('subselect-same', 'SELECT * FROM int1.tbl1 WHERE a IN (SELECT id FROM int1.tbl2)'),
+        ('subselect-nested-other', 'SELECT * FROM int1.tbl1 WHERE a IN (SELECT id FROM int1.tbl2 WHERE b IN (SELECT id FROM int2.tbl3))'),
+        ('subselect-model', 'SELECT * FROM int1.tbl1 WHERE a IN (SELECT p FROM mindsdb.pred WHERE x = 1)'),
         ('subselect-from', 'SELECT x.a FROM (SELECT a FROM int1.tbl1 WHERE b = 1) AS x JOIN int2.tbl2 AS t2 ON x.a = t2.a'),
         ('case-operand-subquery', "SELECT CASE (SELECT max(c) FROM int2.tbl2) WHEN 1 THEN 'a' ELSE 'b' END FROM int1.tbl1"),
         ('union', 'SELECT a FROM int1.tbl1 UNION SELECT a FROM int2.tbl2'),
